@@ -12,7 +12,8 @@ cp "$wt/.seed/patch.diff" "$dst/patch.diff"
 cp -r "$wt/.seed/demo" "$dst/" 2>/dev/null
 cp "$wt/.seed/meta.json" "$dst/meta.json"
 demo_dir=$(python3 -c "import json;print(json.load(open('$dst/meta.json')).get('demo_dir',''))")
-demo_cmd=$(python3 -c "import json;print(json.load(open('$dst/meta.json')).get('demo_cmd',''))")
+# only the `go test ...` part of demo_cmd is used (some seeds wrap it in cp/rm, which hides the exit status)
+demo_cmd=$(python3 -c "import json;print(json.load(open('$dst/meta.json')).get('demo_cmd',''))" | grep -o 'go test [^;&]*' | head -1)
 cd "$wt" || exit 2
 git checkout -q -- . ; git clean -q -fd -e .seed >/dev/null 2>&1
 for f in "$dst"/demo/*_test.go; do cp "$f" "$demo_dir/zz_seed_$(basename "$f")" 2>/dev/null; done
